@@ -62,7 +62,7 @@ type mqBlock struct {
 }
 
 type mqLabel struct {
-	K      string    `json:"k"` // build | buildshut | net | shutdown
+	K      string    `json:"k"` // build | buildshut | net | shutdown | deliver
 	R      uint64    `json:"r,omitempty"`
 	Blocks []mqBlock `json:"blocks,omitempty"`
 	Ext    int       `json:"ext,omitempty"`    // payload bytes of an extension item (0 = none, -1 = extension with nil data)
@@ -74,6 +74,8 @@ type mqLabel struct {
 type mqCase struct {
 	Univ   []uint64  `json:"univ"`
 	Labels []mqLabel `json:"labels"`
+	Dedup  bool      `json:"dedup,omitempty"` // every request in its own dedup bucket (DedupKey): a link shared by two requests is sent for each
+	Limit  uint64    `json:"limit,omitempty"` // allocator per-peer limit (0 = 1 TiB: no reservation ever waits)
 	Tags   []string  `json:"tags,omitempty"`
 }
 
@@ -137,6 +139,10 @@ type mqWorld struct {
 	builderIdx map[*messagequeue.Builder]uint64
 	lastAtt    *uint64 // index of the builder the request's subscriber was found on after the callback
 	shutDone   bool    // the callback ran and called Shutdown()
+	real       *allocator.Allocator
+	parked     []*parkedCall // reservations the real allocator deferred, oldest first
+	callEv     chan string   // "parked" (from the allocator wrapper) / "done" (the transaction returned)
+	deferred   bool          // the call in progress was deferred by the allocator
 	hung       bool
 
 	// statistics over the whole run
@@ -224,6 +230,64 @@ func queueState(st []gState) (qstate string, pubBusy bool) {
 	return
 }
 
+// a reservation the real allocator did not grant at once
+type parkedCall struct {
+	req       uint64
+	size      uint64
+	real      <-chan error
+	proxy     chan error
+	answered  bool
+	val       error
+	delivered bool
+	ev        chan string
+}
+
+// parkAlloc is the Allocator handed to the queue: the REAL allocator decides everything; an answer that is not
+// available at once (the reservation is pending in the allocator) reaches the parked caller only when the
+// script says so ("deliver"), so that what happens between the allocator's answer and the caller's next step
+// is chosen by the script and not by the Go scheduler
+type parkAlloc struct{ w *mqWorld }
+
+func (a parkAlloc) AllocateBlockMemory(p peer.ID, amount uint64) <-chan error {
+	ch := a.w.real.AllocateBlockMemory(p, amount)
+	if len(ch) == 1 {
+		return ch // granted at once
+	}
+	pc := &parkedCall{req: a.w.curReq, size: amount, real: ch, proxy: make(chan error, 1), ev: a.w.callEv}
+	a.w.parked = append(a.w.parked, pc)
+	a.w.deferred = true
+	a.w.shutMode = 0 // a shutdown meant for inside this call's callback is dropped: the callback runs at delivery
+	a.w.callEv <- "parked"
+	return pc.proxy
+}
+func (a parkAlloc) ReleasePeerMemory(p peer.ID) error { return a.w.real.ReleasePeerMemory(p) }
+func (a parkAlloc) ReleaseBlockMemory(p peer.ID, amount uint64) error {
+	return a.w.real.ReleaseBlockMemory(p, amount)
+}
+
+// collect the answers the real allocator has given meanwhile
+func (w *mqWorld) pollAnswers() (waiting, ready int, granted uint64) {
+	for _, pc := range w.parked {
+		if !pc.answered {
+			select {
+			case v := <-pc.real:
+				pc.answered, pc.val = true, v
+			default:
+			}
+		}
+		switch {
+		case !pc.answered:
+			waiting++
+		case !pc.delivered:
+			ready++
+			if pc.val == nil {
+				granted += pc.size
+			}
+		}
+	}
+	return
+}
+
 // the PeerMessageHandler the response assembler talks to: the real queue, with the callback wrapped so
 // that the builder handed to it is identified, the attachment is read back, and Shutdown() can land
 // while the callback runs
@@ -304,6 +368,8 @@ type runResult struct {
 	Kinds    map[string]int `json:"kinds"`
 	NAtt     int            `json:"n_att"`
 	PhaseEnd int            `json:"phase_end"`
+	NParked  int            `json:"n_parked"`
+	NDeliver int            `json:"n_deliver"`
 	Rerun    bool           `json:"rerun"`
 }
 
@@ -314,8 +380,13 @@ func runCase(c mqCase) (res runResult) {
 	w := &mqWorld{arrive: make(chan string, 4), release: make(chan bool), events: map[uint64][]string{}, linkIdx: map[string]uint64{},
 		builderIdx: map[*messagequeue.Builder]uint64{}, subsPerTopic: map[uint64]map[uint64]bool{}, kinds: map[string]int{}}
 	p := peer.ID("peer-1")
-	alloc := allocator.NewAllocator(1<<40, 1<<40)
-	q := messagequeue.New(ctx, p, mqNet{w}, alloc, 3, 10*time.Second, func(peer.ID) {
+	limit := c.Limit
+	if limit == 0 {
+		limit = 1 << 40
+	}
+	alloc := allocator.NewAllocator(1<<40, limit)
+	w.real = alloc
+	q := messagequeue.New(ctx, p, mqNet{w}, parkAlloc{w}, 3, 10*time.Second, func(peer.ID) {
 		w.mu.Lock()
 		w.exited = true
 		w.mu.Unlock()
@@ -387,43 +458,59 @@ func runCase(c mqCase) (res runResult) {
 					w.shutMode = 1
 				}
 			}
-			_ = s.Transaction(func(rb responseassembler.ResponseBuilder) error {
-				for _, b := range l.Blocks {
-					lk := mkLink(b.L)
-					w.mu.Lock()
-					w.linkIdx[lk.String()] = b.L
-					w.mu.Unlock()
-					var data []byte
-					if b.Has {
-						data = make([]byte, b.Size)
+			if c.Dedup {
+				// (re)assign the request's own dedup bucket: a finished request loses its key
+				s.DedupKey(fmt.Sprintf("bucket-%d", l.R))
+			}
+			w.deferred = false
+			evCh := make(chan string, 2)
+			w.callEv = evCh
+			go func() {
+				_ = s.Transaction(func(rb responseassembler.ResponseBuilder) error {
+					for _, b := range l.Blocks {
+						lk := mkLink(b.L)
+						w.mu.Lock()
+						w.linkIdx[lk.String()] = b.L
+						w.mu.Unlock()
+						var data []byte
+						if b.Has {
+							data = make([]byte, b.Size)
+						}
+						rb.SendResponse(lk, data)
+						ops = append(ops, fmt.Sprintf("TBlock %d %d %s", b.L, b.Size, cw.Bool(b.Has)))
 					}
-					rb.SendResponse(lk, data)
-					ops = append(ops, fmt.Sprintf("TBlock %d %d %s", b.L, b.Size, cw.Bool(b.Has)))
-				}
-				if l.Ext != 0 {
-					ed := graphsync.ExtensionData{Name: "verif/ext"}
-					size := int64(0)
-					if l.Ext > 0 {
-						ed.Data = basicnode.NewBytes(make([]byte, l.Ext))
-						size, _ = dagcbor.EncodedLength(ed.Data)
+					if l.Ext != 0 {
+						ed := graphsync.ExtensionData{Name: "verif/ext"}
+						size := int64(0)
+						if l.Ext > 0 {
+							ed.Data = basicnode.NewBytes(make([]byte, l.Ext))
+							size, _ = dagcbor.EncodedLength(ed.Data)
+						}
+						rb.SendExtensionData(ed)
+						ops = append(ops, fmt.Sprintf("TExt %d", size))
 					}
-					rb.SendExtensionData(ed)
-					ops = append(ops, fmt.Sprintf("TExt %d", size))
-				}
-				switch l.Status {
-				case "finish":
-					st := rb.FinishRequest()
-					ops = append(ops, fmt.Sprintf("TStatus %d", st))
-				case "error":
-					rb.FinishWithError(graphsync.RequestFailedUnknown)
-					ops = append(ops, fmt.Sprintf("TStatus %d", graphsync.RequestFailedUnknown))
-				case "pause":
-					rb.PauseRequest()
-					ops = append(ops, fmt.Sprintf("TStatus %d", graphsync.RequestPaused))
-				}
-				return nil
-			})
-			if l.K == "buildshut" && !w.shutDone {
+					switch l.Status {
+					case "finish":
+						st := rb.FinishRequest()
+						ops = append(ops, fmt.Sprintf("TStatus %d", st))
+					case "error":
+						rb.FinishWithError(graphsync.RequestFailedUnknown)
+						ops = append(ops, fmt.Sprintf("TStatus %d", graphsync.RequestFailedUnknown))
+					case "pause":
+						rb.PauseRequest()
+						ops = append(ops, fmt.Sprintf("TStatus %d", graphsync.RequestPaused))
+					}
+					return nil
+				})
+				evCh <- "done"
+			}()
+			// the transaction returns, or parks in the allocator
+			select {
+			case <-evCh:
+			case <-time.After(5 * time.Second):
+				res.Hung = true
+			}
+			if l.K == "buildshut" && !w.shutDone && !w.deferred {
 				// the stream was closed (or the queue already shut down): the callback never ran; the
 				// shutdown still happens, with nothing being built
 				q.Shutdown()
@@ -437,9 +524,12 @@ func runCase(c mqCase) (res runResult) {
 				res.NAtt++
 			}
 			if l.K == "build" {
-				term = fmt.Sprintf("L16 (LBuild %d %s)", l.R, cw.List(ops))
+				term = fmt.Sprintf("PL (L16 (LBuild %d %s))", l.R, cw.List(ops))
 			} else {
-				term = fmt.Sprintf("LBuildShut %d %s", l.R, cw.List(ops))
+				term = fmt.Sprintf("PL (LBuildShut %d %s)", l.R, cw.List(ops))
+			}
+			if w.deferred {
+				res.NParked++
 			}
 		case "net":
 			if w.inCall == "" {
@@ -456,10 +546,39 @@ func runCase(c mqCase) (res runResult) {
 			if !l.OK {
 				res.SawError = true
 			}
-			term = fmt.Sprintf("L16 (LNet %s)", cw.Bool(l.OK))
+			term = fmt.Sprintf("PL (L16 (LNet %s))", cw.Bool(l.OK))
 		case "shutdown":
 			q.Shutdown()
-			term = "L16 LShutdown"
+			term = "PL (L16 LShutdown)"
+		case "deliver":
+			// the oldest answered reservation reaches its caller, which runs to the end of AllocateAndBuildMessage
+			w.pollAnswers()
+			var pc *parkedCall
+			for _, x := range w.parked {
+				if x.answered && !x.delivered {
+					pc = x
+					break
+				}
+			}
+			if pc == nil {
+				continue // nothing answered: skip the label
+			}
+			w.curReq = pc.req
+			w.lastAtt = nil
+			w.shutMode = 0
+			pc.delivered = true
+			pc.proxy <- pc.val
+			select {
+			case <-pc.ev:
+			case <-time.After(5 * time.Second):
+				res.Hung = true
+			}
+			if w.lastAtt != nil {
+				att = fmt.Sprintf("at_ %d %d true", pc.req, *w.lastAtt)
+				res.NAtt++
+			}
+			res.NDeliver++
+			term = "PDeliver"
 		default:
 			continue
 		}
@@ -484,12 +603,16 @@ func runCase(c mqCase) (res runResult) {
 		w.mu.Unlock()
 		res.PhaseEnd = phase
 		hint := phase != 4
-		res.Labels = append(res.Labels, fmt.Sprintf("lh_ (%s) %s", term, cw.Bool(hint)))
+		nWait, nReady, granted := w.pollAnswers()
+		if phase == 4 {
+			granted = 0 // ReleasePeerMemory at exit forgets whatever had been granted and not used
+		}
+		res.Labels = append(res.Labels, fmt.Sprintf("pl_ (%s) %s", term, cw.Bool(hint)))
 		res.Atts = append(res.Atts, att)
-		res.Obs = append(res.Obs, fmt.Sprintf("Build_qobs %d %s %d %d %s %s", alloc.AllocatedForPeer(p),
-			cw.NList(q.VerifQueuedBlockSizes()), q.VerifQueuedNonEmpty(), phase, cw.List(evs), cw.List(wire)))
-		lastObs = fmt.Sprintf("Build_qobs %d %s %d %d @EVENTS@ []", alloc.AllocatedForPeer(p),
-			cw.NList(q.VerifQueuedBlockSizes()), q.VerifQueuedNonEmpty(), phase)
+		res.Obs = append(res.Obs, fmt.Sprintf("po_ %d %s %d %d %s %s (%s) %d %d %d", alloc.AllocatedForPeer(p),
+			cw.NList(q.VerifQueuedBlockSizes()), q.VerifQueuedNonEmpty(), phase, cw.List(evs), cw.List(wire), att, nWait, nReady, granted))
+		lastObs = fmt.Sprintf("po_ %d %s %d %d @EVENTS@ [] (no_at) %d %d %d", alloc.AllocatedForPeer(p),
+			cw.NList(q.VerifQueuedBlockSizes()), q.VerifQueuedNonEmpty(), phase, nWait, nReady, granted)
 	}
 	// late subscriber events: wait until the event count has been stable for 10ms, then attribute them to a
 	// final no-op label (an LNet with nothing blocked)
@@ -518,7 +641,7 @@ func runCase(c mqCase) (res runResult) {
 				}
 			}
 			if any {
-				res.Labels = append(res.Labels, "lh_ (L16 (LNet true)) true") // a no-op label when nothing is blocked
+				res.Labels = append(res.Labels, "pl_ (PL (L16 (LNet true))) true") // a no-op label when nothing is blocked
 				res.Atts = append(res.Atts, "no_at")
 				res.Obs = append(res.Obs, strings.Replace(lastObs, "@EVENTS@", cw.List(extra), 1))
 			}
@@ -554,6 +677,37 @@ func runCase(c mqCase) (res runResult) {
 	return
 }
 
+// dedupGen draws blocks from a small common pool (links 1001, 1002; one fixed size each), at most once per request
+type dedupGen struct {
+	on   bool
+	size map[uint64]uint64
+	used map[uint64]map[uint64]bool
+}
+
+var dg dedupGen
+
+func (d *dedupGen) reset(on bool) {
+	d.on, d.size, d.used = on, map[uint64]uint64{}, map[uint64]map[uint64]bool{}
+}
+
+func (d *dedupGen) pick(r *rng.R, req uint64, size uint64) (uint64, uint64, bool) {
+	if !d.on || !r.P(2, 3) {
+		return 0, 0, false
+	}
+	cand := uint64(1001 + r.Intn(2))
+	if d.used[req] == nil {
+		d.used[req] = map[uint64]bool{}
+	}
+	if d.used[req][cand] {
+		return 0, 0, false
+	}
+	d.used[req][cand] = true
+	if d.size[cand] == 0 {
+		d.size[cand] = size
+	}
+	return cand, d.size[cand], true
+}
+
 func genBuild(r *rng.R, nreq int, link *uint64, big bool) mqLabel {
 	l := mqLabel{K: "build", R: uint64(r.Range(1, nreq))}
 	if r.P(1, 12) {
@@ -569,7 +723,11 @@ func genBuild(r *rng.R, nreq int, link *uint64, big bool) mqLabel {
 				size = uint64(r.Range(524289, 600000)) // larger than a whole message: always starts a new builder
 			}
 		}
-		l.Blocks = append(l.Blocks, mqBlock{L: *link, Size: size, Has: r.P(5, 6)})
+		if pl, psz, ok := dg.pick(r, l.R, size); ok {
+			l.Blocks = append(l.Blocks, mqBlock{L: pl, Size: psz, Has: true})
+		} else {
+			l.Blocks = append(l.Blocks, mqBlock{L: *link, Size: size, Has: r.P(5, 6)})
+		}
 	}
 	if r.P(1, 4) {
 		l.Ext = r.Range(1, 300)
@@ -598,7 +756,20 @@ func genCase(r *rng.R) mqCase {
 	n := r.Range(2, 14)
 	link := uint64(0)
 	big := r.P(1, 4)
-	failHeavy := r.P(1, 4) // more failing network calls: reconnect failures, initial connect failures
+	// a third of the scripts with several requests: own dedup bucket per request, common blocks
+	c.Dedup = nreq >= 2 && r.P(1, 3)
+	dg.reset(c.Dedup)
+	// a third of the scripts: a small per-peer limit in the real allocator, so that reservations wait there while
+	// the queue sends, fails, shuts down and exits; their answers are delivered at scripted points
+	small := r.P(1, 3)
+	if small {
+		if big {
+			c.Limit = uint64(r.Range(200000, 700000))
+		} else {
+			c.Limit = uint64(r.Range(500, 5000))
+		}
+	}
+	failHeavy := r.P(1, 4)               // more failing network calls: reconnect failures, initial connect failures
 	alternate := !failHeavy && r.P(1, 5) // sends fail and reconnects succeed: retries run out
 	sendTurn := false
 	for i := 0; i < n; i++ {
@@ -620,6 +791,11 @@ func genCase(r *rng.R) mqCase {
 			c.Labels = append(c.Labels, mqLabel{K: "net", OK: ok})
 		case x < 94:
 			c.Labels = append(c.Labels, mqLabel{K: "shutdown"})
+			if small && r.P(1, 2) {
+				c.Labels = append(c.Labels, mqLabel{K: "deliver"})
+			}
+		case small && x < 97:
+			c.Labels = append(c.Labels, mqLabel{K: "deliver"})
 		default:
 			l := genBuild(r, nreq, &link, big)
 			l.K = "buildshut"
@@ -638,13 +814,72 @@ func genCase(r *rng.R) mqCase {
 	}
 	for i := 0; i < 8; i++ {
 		c.Labels = append(c.Labels, mqLabel{K: "net", OK: true})
+		if small {
+			c.Labels = append(c.Labels, mqLabel{K: "deliver"})
+		}
 	}
 	return c
+}
+
+// a reservation parked in the allocator behind this peer's own queued data, then every order of: the network
+// calls returning, Shutdown(), the answer reaching the parked caller
+func genParkSweep(r *rng.R) []mqCase {
+	dg.reset(false)
+	var base mqCase
+	base.Univ = []uint64{1, 2, 3}
+	a := uint64(r.Range(400, 900))
+	base.Limit = 1000
+	link := uint64(1)
+	base.Labels = append(base.Labels, mqLabel{K: "build", R: 1, Blocks: []mqBlock{{L: link, Size: a, Has: true}}})
+	// parks: does not fit beside the first message; fits once that is released, or (every other sweep) never
+	b := uint64(r.Range(int(1000-a)+1, 1000))
+	if r.P(1, 3) {
+		b = uint64(r.Range(1001, 1500))
+	}
+	link++
+	base.Labels = append(base.Labels, mqLabel{K: "build", R: 2, Blocks: []mqBlock{{L: link, Size: b, Has: true}}})
+	if r.P(1, 2) {
+		link++
+		base.Labels = append(base.Labels, mqLabel{K: "build", R: 3, Blocks: []mqBlock{{L: link, Size: uint64(r.Range(1, 50)), Has: true}}, Status: "finish"})
+	}
+	firstOK := r.P(1, 2)
+	moves := []mqLabel{{K: "net", OK: firstOK}, {K: "net", OK: r.P(1, 2)}, {K: "net", OK: true}, {K: "shutdown"}, {K: "deliver"}, {K: "deliver"}}
+	var out []mqCase
+	// all interleavings that keep the three network outcomes in their order: choose positions for shutdown and delivers
+	for sp := 0; sp <= 3; sp++ {
+		for d1 := 0; d1 <= 3; d1++ {
+			for d2 := d1; d2 <= 3; d2++ {
+				var c mqCase
+				c.Univ, c.Limit = base.Univ, base.Limit
+				c.Labels = append(c.Labels, base.Labels...)
+				for pos := 0; pos <= 3; pos++ {
+					if sp == pos {
+						c.Labels = append(c.Labels, moves[3])
+					}
+					if d1 == pos {
+						c.Labels = append(c.Labels, moves[4])
+					}
+					if d2 == pos {
+						c.Labels = append(c.Labels, moves[5])
+					}
+					if pos < 3 {
+						c.Labels = append(c.Labels, moves[pos])
+					}
+				}
+				for i := 0; i < 4; i++ {
+					c.Labels = append(c.Labels, mqLabel{K: "net", OK: true}, mqLabel{K: "deliver"})
+				}
+				out = append(out, c)
+			}
+		}
+	}
+	return out
 }
 
 // a base script without shutdown, and the shutdown placed at every point of it: between any two labels, and
 // inside every build callback (before / after the callback's own work)
 func genSweep(r *rng.R) []mqCase {
+	dg.reset(false)
 	nreq := r.Range(2, 3)
 	var base mqCase
 	for i := 1; i <= nreq; i++ {
@@ -702,7 +937,7 @@ func genSweep(r *rng.R) []mqCase {
 }
 
 const mqHeader = `From Coq Require Import List NArith Bool.
-From GS Require Import Base MsgQueue MsgQueue16.
+From GS Require Import Base MsgQueue MsgQueue16 MsgQueuePark.
 Import ListNotations.
 Open Scope N_scope.
 `
@@ -794,9 +1029,10 @@ func run(c *drv.Ctx) error {
 		b, _ := json.Marshal(runLocal(mcs))
 		return os.WriteFile(wf+".out", b, 0o644)
 	}
-	w := cw.New(c.Out, mqHeader, "qcase16", []cw.Check{
-		{Name: "MISMATCH", Fn: "qcase16_agrees"},
-		{Name: "MON16", Fn: "qcase16_mon"},
+	w := cw.New(c.Out, mqHeader, "pcase", []cw.Check{
+		{Name: "MISMATCH", Fn: "pcase_agrees"},
+		{Name: "MON16", Fn: "pcase_mon16"},
+		{Name: "MON15P", Fn: "pcase_mon15"},
 	})
 	w.ShardSize = 50
 	w.Stats.Rule = "scripts of response-assembler transactions (blocks of 1B-400KiB with distinct links, extension payloads, statuses, also empty transactions) over 1-4 requests " +
@@ -832,6 +1068,11 @@ func run(c *drv.Ctx) error {
 		for i := 0; i < nsweep; i++ {
 			for _, mc := range genSweep(c.R.Fork()) {
 				cases = append(cases, item{mc: mc, tag: "sweep"})
+			}
+		}
+		for i := 0; i < (nsweep+3)/4; i++ {
+			for _, mc := range genParkSweep(c.R.Fork()) {
+				cases = append(cases, item{mc: mc, tag: "parksweep"})
 			}
 		}
 		for i := 0; i < n; i++ {
@@ -906,7 +1147,25 @@ func run(c *drv.Ctx) error {
 			tot["events-"+k] += v
 		}
 		tot["attachments"] += r.NAtt
-		term := fmt.Sprintf("Build_qcase16 %s\n    %s\n    %s\n    %s", cw.NList(it.mc.Univ), cw.List(r.Labels), cw.List(r.Obs), cw.List(r.Atts))
+		lim := it.mc.Limit
+		if lim == 0 {
+			lim = 1 << 40
+		}
+		if it.mc.Limit != 0 {
+			tags = append(tags, "small-allocator-limit")
+		}
+		if r.NParked > 0 {
+			tags = append(tags, "some-reservation-parked")
+		}
+		if r.NDeliver > 0 {
+			tags = append(tags, "some-parked-answer-delivered")
+		}
+		if it.mc.Dedup {
+			tags = append(tags, "dedup-buckets-common-blocks")
+		}
+		tot["parked-reservations"] += r.NParked
+		tot["delivered-answers"] += r.NDeliver
+		term := fmt.Sprintf("Build_pcase %s %d\n    %s\n    %s", cw.NList(it.mc.Univ), lim, cw.List(r.Labels), cw.List(r.Obs))
 		it.mc.Tags = tags
 		idx := w.Add(term, it.mc, r.SawError || shut || bshut, tags...)
 		if r.Hung {
